@@ -93,6 +93,37 @@ def run_scenario(item):
                 time.sleep(0.02)
                 d = hook_delta()
                 recs.append({'ev': 'admin_unban', 's': st['s'], 't': now_ds(), 'banned': d['banned'], 'unbanned': d['unbanned']})
+            elif op == 'tx_abandon':
+                # the client resets its connection right after sending the statement
+                req = st['a']
+                if cl.dead or cl.sock is None:
+                    cl = Client(w.port, name='T', timeout=8.0)
+                r0 = cl.query("SET SERVER ROLE TO '%s'" % req, tagged=False)
+                if r0.end != 'Z':
+                    cl.close()
+                    cl = Client(w.port, name='T', timeout=8.0)
+                    cl.query("SET SERVER ROLE TO '%s'" % req, tagged=False)
+                hook_delta()
+                t0 = now_ds()
+                mark = w.log.mark()
+                cl.send(W.Q('SELECT 1 ' + cl.tag()))
+                ex = w.wait_backend_event(lambda e: e.get('ev') == 'exec' and e.get('client') == 'T' and e.get('n') == cl.serial,
+                                          timeout=(CONNECT_MS + HC_MS) * 4 / 1000.0 + 1.0, since=mark)
+                cl.abort()
+                cl.dead = True
+                time.sleep(0.75)
+                d = hook_delta()
+                by = ex['be'] if ex else (d['checkout'][-1] if d['checkout'] else 'none')
+                if by != 'none' and be[by].fault_kind == 'dies_under_statement':
+                    result = 'failed'
+                elif ex is not None:
+                    result = 'served'
+                else:
+                    result = 'abandoned'
+                recs.append({'ev': 'tx', 'req': req, 'result': result, 'by': by, 't0': t0, 't': now_ds(), 'secs_ds': 0,
+                             'bound_ds': 1000, 'banned': d['banned'], 'unbanned': d['unbanned'],
+                             'tried_failed': d['tried_failed'], 'error': 'client gone',
+                             'banned_seen': d['banned_seen'], 'unbanned_seen': d['unbanned_seen']})
             elif op == 'tx':
                 req = st['a']
                 if cl.dead or cl.sock is None:
